@@ -2072,6 +2072,16 @@ class Builder:
         if isinstance(e, ast.Constant):
             return kt(env, ver) if e.value else kf(env, ver)
         if isinstance(e, ast.Compare) and len(e.ops) == 1 and isinstance(
+                e.ops[0], (ast.Is, ast.IsNot)) and isinstance(
+                    e.left, ast.Constant) and isinstance(
+                        e.comparators[0], ast.Constant) and (
+                            e.left.value is None
+                            or e.comparators[0].value is None):
+            same = e.left.value is None and e.comparators[0].value is None
+            if isinstance(e.ops[0], ast.IsNot):
+                same = not same
+            return kt(env, ver) if same else kf(env, ver)
+        if isinstance(e, ast.Compare) and len(e.ops) == 1 and isinstance(
                 e.ops[0], (ast.Lt, ast.LtE, ast.Gt, ast.GtE, ast.Eq,
                            ast.NotEq)):
             try:
@@ -2140,25 +2150,66 @@ def _parse_atom(key):
 
 
 def _consistent(key, val, assign):
-    """strict order on values read at the same versions: a < b excludes
-    b < a and a == b (the only arithmetic the comparison of trees uses)"""
+    """The conditions are read as statements about a strict linear order on
+    the values they compare (the only arithmetic the comparison of trees
+    uses): the new one must not contradict the ones already assumed.
+    Facts combine only when they read the same versions of the state."""
     p = _parse_atom(key)
     if p is None:
         return True
     kind, x, y, tag = p
-    if not val:
-        return True
-    if kind == 'Lt':
-        if assign.get('Lt(%s, %s) #%s' % (y, x, tag)) is True:
-            return False
-        lo, hi = sorted([x, y])
-        if assign.get('Eq(%s, %s) #%s' % (lo, hi, tag)) is True:
-            return False
-    else:
-        if assign.get('Lt(%s, %s) #%s' % (x, y, tag)) is True or \
-                assign.get('Lt(%s, %s) #%s' % (y, x, tag)) is True:
-            return False
-    return True
+    tagd = _parse_tag(tag)
+
+    def compatible(t2):
+        d2 = _parse_tag(t2)
+        return all(d2.get(r, n) == n for r, n in tagd.items())
+    # edges u -> v with weight strict/non-strict meaning u < v / u <= v
+    edges = []
+
+    def add(k2, v2):
+        q = _parse_atom(k2)
+        if q is None or not compatible(q[3]):
+            return
+        kd, a_, b_, _ = q
+        if kd == 'Lt':
+            if v2:
+                edges.append((a_, b_, True))
+            else:
+                edges.append((b_, a_, False))
+        elif v2:
+            edges.append((a_, b_, False))
+            edges.append((b_, a_, False))
+    for k2, v2 in assign.items():
+        add(k2, v2)
+    # repository fact (checked by R-geometry on the constructors): the two
+    # interval attributes of an element are ordered pairs
+    import re
+    nodes = {x, y} | {a_ for a_, _, _ in edges} | {b_ for _, b_, _ in edges}
+    for nd in list(nodes):
+        m_ = re.fullmatch(r'(.+\.(?:time|space)_interval)\[0\]', nd)
+        if m_ and m_.group(1) + '[1]' in nodes:
+            edges.append((nd, m_.group(1) + '[1]', True))
+
+    def reach(src, dst):
+        """(reachable, reachable through at least one strict edge)"""
+        best = {src: False}
+        todo = [src]
+        while todo:
+            u = todo.pop()
+            for a_, b_, st in edges:
+                if a_ == u:
+                    s2 = best[u] or st
+                    if b_ not in best or (s2 and not best[b_]):
+                        best[b_] = s2
+                        todo.append(b_)
+        return (dst in best, best.get(dst, False))
+    if kind == 'Lt' and val:          # x < y  against  y <= x
+        return not reach(y, x)[0]
+    if kind == 'Lt' and not val:      # y <= x against  x < y
+        return not reach(x, y)[1]
+    if kind == 'Eq' and val:          # x == y against a strict path
+        return not reach(x, y)[1] and not reach(y, x)[1]
+    return True                       # x != y: never refuted here
 
 
 class _Eq:
